@@ -57,7 +57,7 @@ func Alphabet() []Spec {
 			return []*types.Transaction{e.Transfer(A, D, 1), e.Transfer(D, A, 2)}
 		}},
 		{"A->C,C->C", func(e *Env) []*types.Transaction {
-			return []*types.Transaction{e.Transfer(A, C, 1), e.Transfer(C, C, 2)}
+			return []*types.Transaction{e.Transfer(A, C, 3*Fee), e.Transfer(C, C, 2)}
 		}},
 		{"B->D(fails),A->B", func(e *Env) []*types.Transaction {
 			return []*types.Transaction{e.Transfer(B, D, 1e9), e.Transfer(A, B, 7)}
